@@ -249,6 +249,19 @@ def check_derive(ctx, case):
                     k.wif()
                 elif how == 'public':
                     k.public()
+                elif how == 'uncompressed_hex':
+                    k.public_uncompressed_hex
+                elif how == 'uncompressed_byte':
+                    k.public_uncompressed_byte
+                elif how == 'as_dict':
+                    k.as_dict()
+                elif how == 'info':
+                    import contextlib
+                    import io
+                    with contextlib.redirect_stdout(io.StringIO()):
+                        k.info()
+                elif how == 'point':
+                    k.public_point()
             except Exception:
                 pass
     touch(root)
@@ -301,6 +314,7 @@ def check_derive(ctx, case):
         raise Discrepancy('public_parent.raises', 'creating the public-only parent (%s) raised %r' % (pubvia, e), case)
     if not use_M:
         _compare(parent, rpub_parent, False, 'public parent (%s)' % pubvia, case, versions)
+        touch(parent)                  # (the public-only parent is looked at as well before it is derived from)
 
     hardened_at = [i for i, e in enumerate(tail) if e[1]]
     if not tail:
@@ -519,7 +533,7 @@ def derive_strategy(ctx):
         case['path'] = path
         case['touch'] = draw(st.one_of(st.just([]), st.lists(st.sampled_from(
             ['address_uncompressed', 'address_uncompressed_explicit', 'address', 'address_obj', 'hash160', 'wif',
-             'public']), min_size=1, max_size=3)))
+             'public', 'uncompressed_hex', 'uncompressed_byte', 'as_dict', 'info', 'point']), min_size=1, max_size=3)))
         case['style'] = draw(st.sampled_from(['str', 'str', 'list', 'steps']))
         case['prefix'] = draw(st.sampled_from(['m', '']))
         if j is not None:
